@@ -8,7 +8,8 @@
    iteration order leaking into an output) is established by the controlled-schedule and
    hash-seed runs of harness/props/c04.py (bitwise comparison of the outputs), not proved. *)
 From Coq Require Import ZArith List Bool Permutation.
-From CTM Require Import Base.Sx Base.SortX Model.Pool Model.Gather Proofs.PoolP Proofs.GatherP.
+From CTM Require Import Base.Sx Base.SortX Model.Pool Model.Gather Model.Tree Model.Markers
+  Proofs.PoolP Proofs.GatherP Proofs.SelPoolP Proofs.MarkersP Proofs.CacheOrderP.
 Import ListNotations.
 
 (* mapping, shared-list path: for every per-chunk worker `work` (any function of the chunk
@@ -129,6 +130,75 @@ Theorem c04_selection_result_total : forall (A : Type) (parents : list Z) (f : l
 Proof. exact selection_result_total. Qed.
 Print Assumptions c04_selection_result_total.
 
+(* selection, the scheduler of select_all_markers: the POOL INVARIANT  started \ completed =
+   keys of process_dict.  At every state the loop can hand back -- stop the outer loop after
+   any number `outer` of iterations (the state at that loop head comes back), starve the inner
+   poll loops with any `fuel` (the state right after the start comes back) -- for every world
+   (schedule), bound and split of the parents: started, completed and the keys of process_dict
+   are duplicate-free; a parent is a key of process_dict iff it is started and not completed;
+   completed is part of started; no process carries a start time in the future; and only
+   parents of parent_list are ever started.  (c14_selection_scheduler uses it to show that the
+   `while ... or not have_chosen_parent` poll cannot spin with nothing running.) *)
+Theorem c04_pool_invariant :
+  forall (W : world) (n : nat) (behemoths smaller leafless : list nat) (outer fuel : nat),
+  let s := snd (sel_loop outer fuel W n (length behemoths + length smaller) behemoths smaller leafless sel_init) in
+  (NoDup (ss_started s) /\ NoDup (ss_completed s) /\ NoDup (map fst (ss_running s)) /\
+   (forall p, In p (map fst (ss_running s)) <-> In p (ss_started s) /\ ~ In p (ss_completed s)) /\
+   (forall p, In p (ss_completed s) -> In p (ss_started s)) /\
+   (forall j, In j (ss_running s) -> (snd j <= ss_clock s)%nat)) /\
+  (forall p, In p (ss_started s) -> In p (behemoths ++ smaller)).
+Proof. exact pool_invariant. Qed.
+Print Assumptions c04_pool_invariant.
+
+(* ... hence: when no worker fails, any two schedules (worlds W1 W2: durations, hence completion
+   orders; bounds n1 n2) end cleanly with the same set of completed parents, namely all of
+   parent_list -- output_dict has an entry for exactly these, in whatever order *)
+Theorem c04_selection_schedule_independent :
+  forall (W1 W2 : world) (n1 n2 : nat) (behemoths smaller leafless : list nat),
+  (1 <= n1)%nat -> (1 <= n2)%nat -> NoDup (behemoths ++ smaller) ->
+  (forall p, In p (behemoths ++ smaller) -> mem p leafless = false -> code W1 p = 0%Z) ->
+  (forall p, In p (behemoths ++ smaller) -> mem p leafless = false -> code W2 p = 0%Z) ->
+  let r1 := run_selection_pool W1 n1 behemoths smaller leafless in
+  let r2 := run_selection_pool W2 n2 behemoths smaller leafless in
+  fst r1 = POk /\ fst r2 = POk /\
+  Permutation (ss_completed (snd r1)) (behemoths ++ smaller) /\
+  Permutation (ss_completed (snd r1)) (ss_completed (snd r2)).
+Proof. exact selection_schedule_independent. Qed.
+Print Assumptions c04_selection_schedule_independent.
+
+(* marker cache (write_query_markers_to_h5): each group lists (reference index, query index)
+   pairs sorted by reference index, so the cache -- parent_node_list, all_query_markers,
+   all_reference_markers and the reference / query arrays of every group, or the KeyError --
+   is the same for any two tables with the same keys whose entries list the same distinct
+   genes in different orders.  That is how the hash seed would enter:
+   create_marker_cache_from_specified_markers builds each entry as
+   list(query_gene_set.intersection(set(...))), a list in set-iteration order. *)
+Theorem c04_cache_sorted_by_reference_index : forall (tb1 tb2 : table) (refg qg : list gene),
+  Forall2 (fun e1 e2 => fst e1 = fst e2 /\ Permutation (snd e1) (snd e2)) tb1 tb2 ->
+  (forall k l, In (k, l) tb1 -> NoDup l) ->
+  write_query_markers tb1 refg qg = write_query_markers tb2 refg qg.
+Proof. exact cache_order_independent. Qed.
+Print Assumptions c04_cache_sorted_by_reference_index.
+
+(* ... and the order of a group is that of strictly increasing reference index *)
+Theorem c04_cache_groups_strictly_sorted : forall (tb : table) (refg qg : list gene) (c : cache) k ri qi,
+  (forall k l, In (k, l) tb -> NoDup l) ->
+  write_query_markers tb refg qg = MOk c -> In (k, (ri, qi)) (c_groups c) ->
+  strictly_ascending ri /\ length qi = length ri.
+Proof. exact cache_groups_sorted. Qed.
+Print Assumptions c04_cache_groups_strictly_sorted.
+
+(* one level up, the whole of create_marker_cache_from_specified_markers (validation and
+   patching against the taxonomy tree when one is given, restriction to the query genes,
+   reference check, writing): the cache -- or the error -- is a function of the SET of genes
+   listed under each key; neither the order nor the multiplicity of a listing matters *)
+Theorem c04_cache_independent_of_listing :
+  forall (tb1 tb2 : table) (refg qg : list gene) (topt : option tree) (minm : nat),
+  Forall2 (fun e1 e2 => fst e1 = fst e2 /\ forall g, In g (snd e1) <-> In g (snd e2)) tb1 tb2 ->
+  create_cache tb1 refg qg topt minm = create_cache tb2 refg qg topt minm.
+Proof. exact create_cache_listing_independent. Qed.
+Print Assumptions c04_cache_independent_of_listing.
+
 (* ---- hypotheses satisfiable, conclusions not vacuous *)
 Example c04_example_gather :
   let work := fun (i : nat) (seed : Z) => map (fun j => (Z.of_nat (3 * i + j), seed + Z.of_nat j)%Z) (seq 0 3) in
@@ -167,4 +237,51 @@ Proof.
   - change [(3, 73); (2, 72); (1, 71); (0, 70)]%Z with (rev [(0, 70); (1, 71); (2, 72); (3, 73)]%Z).
     apply Permutation_rev.
   - apply (proj1 (znodup_b_spec _)). vm_compute. reflexivity.
+Qed.
+
+(* the pool invariant on a state in the middle of a run: five parents, 0 and 3 behemoths, 4
+   without leaf pairs, two processes at a time; after 3 iterations of the outer loop parents
+   0 1 2 are started, 1 and 0 completed, 2 is in process_dict (started at poll 8) *)
+Example c04_example_pool_state :
+  let W := {| code := fun _ => 0%Z; dur := fun w => (9 - 2 * w)%nat |} in
+  let s := snd (sel_loop 3 20 W 2 5 [0; 3] [1; 2; 4] [4] sel_init)%nat in
+  ss_started s = [0; 1; 2]%nat /\ ss_completed s = [1; 0]%nat /\ ss_running s = [(2, 8)]%nat.
+Proof. vm_compute. repeat split; reflexivity. Qed.
+
+(* one parent whose three markers are listed in two different orders; reference genes
+   10 11 12 13, query genes 13 12 11 10: one and the same cache, reference indices 0 1 3 *)
+Example c04_example_cache_order :
+  let refg := [10; 11; 12; 13]%Z in
+  let qg := [13; 12; 11; 10]%Z in
+  let tb1 := [(None, [13; 10; 11]%Z)] in
+  let tb2 := [(None, [11; 13; 10]%Z)] in
+  Forall2 (fun e1 e2 => fst e1 = fst e2 /\ Permutation (snd e1) (snd e2)) tb1 tb2 /\
+  (forall k l, In (k, l) tb1 -> NoDup l) /\
+  write_query_markers tb1 refg qg = write_query_markers tb2 refg qg /\
+  write_query_markers tb1 refg qg =
+    MOk {| c_parents := [None]; c_allq := [0; 2; 3]%nat; c_allr := [0; 1; 3]%nat;
+           c_groups := [(None, ([0; 1; 3], [3; 2; 0])%nat)] |}.
+Proof.
+  cbv zeta. split; [|split; [|split; vm_compute; reflexivity]].
+  - constructor; [|constructor]. split; [reflexivity|]. cbn.
+    apply (Permutation_cons_app [11]%Z [10]%Z 13%Z). apply (Permutation_cons_app [11]%Z nil 10%Z). reflexivity.
+  - intros k l [E|[]]. inversion E; subst. apply (proj1 (znodup_b_spec _)). vm_compute. reflexivity.
+Qed.
+
+(* the same parent listed with a repeated gene and in another order; a two-level tree (root
+   with children 1 and 2) so that the validation against the tree runs too *)
+Example c04_example_cache_listing :
+  let refg := [10; 11; 12; 13]%Z in
+  let qg := [13; 12; 11; 10]%Z in
+  let t : tree := [[(1, [5]); (2, [6])]; [(5, [50]); (6, [60])]]%Z in
+  let tb1 := [(None, [13; 10; 11; 10]%Z)] in
+  let tb2 := [(None, [11; 13; 10]%Z)] in
+  Forall2 (fun e1 e2 => fst e1 = fst e2 /\ forall g, In g (snd e1) <-> In g (snd e2)) tb1 tb2 /\
+  create_cache tb1 refg qg (Some t) 1 = create_cache tb2 refg qg (Some t) 1 /\
+  create_cache tb1 refg qg (Some t) 1 =
+    MOk {| c_parents := [None]; c_allq := [0; 2; 3]%nat; c_allr := [0; 1; 3]%nat;
+           c_groups := [(None, ([0; 1; 3], [3; 2; 0])%nat)] |}.
+Proof.
+  cbv zeta. split; [|split; vm_compute; reflexivity].
+  constructor; [|constructor]. split; [reflexivity|]. intros g. cbn. intuition.
 Qed.
